@@ -36,13 +36,13 @@ def concretise(ctx, beh, profile):
 
 def run(ctx):
     vh = ctx.build("sync")
-    if ctx.replay:
-        case = json.load(open(ctx.replay))["case"]["input"]
-        ctx.absorb(ctx.run_engine(vh, "peercache", [case]))
-        return
     cfg = "MC_PeerCache_thorough.cfg" if ctx.thorough else "MC_PeerCache.cfg"
     r = ctx.tlc("PeerCache", cfg, timeout=1500)
     ctx.require_actions(r, ["Next"])
+    if ctx.replay:   # the stored case only (the design-level run above keeps the evidence complete)
+        case = json.load(open(ctx.replay))["case"]["input"]
+        ctx.absorb(ctx.run_engine(vh, "peercache", [case]))
+        return
     rs = ctx.tlc("PeerCache", "MC_PeerCache_star.cfg", timeout=900)
     beh = concretise(ctx, r.replays, "skip" if ctx.thorough else "small")
     star = concretise(ctx, rs.replays, "small")
